@@ -92,7 +92,9 @@ ModQ(a, q) == ((a % q) + q) % q
 RECURSIVE FPow(_, _, _), ProdQ(_, _, _), SumE(_, _, _, _), SelSets(_, _)
 FPow(a, e, q) == IF e = 0 THEN 1 ELSE LET h == FPow(a, e \div 2, q) IN
                  ModQ(ModQ(h * h, q) * (IF e % 2 = 1 THEN a ELSE 1), q)
-InvQ(a, q) == FPow(ModQ(a, q), q - 2, q)
+\* inverses of the (small) differences of share indices, tabulated once per prime
+InvTab == [q \in Primes |-> [d \in 1..16 |-> FPow(d, q - 2, q)]]
+InvQ(a, q) == IF a > 0 THEN InvTab[q][a] ELSE q - InvTab[q][-a]
 ProdQ(X, xi, q) == IF X = {} THEN 1 ELSE LET x == CHOOSE y \in X : TRUE IN       \* prod_{x # xi} x / (x - xi)
                    ModQ((IF x = xi THEN 1 ELSE ModQ(x * InvQ(x - xi, q), q)) * ProdQ(X \ {x}, xi, q), q)
 SumE(E, lam, j, q) == IF E = {} THEN 0 ELSE LET p == CHOOSE r \in E : TRUE IN    \* sum lambda_k * by_k^j
